@@ -33,10 +33,11 @@ def one_case(rng, res, check_c11=True):
         n = rng.randrange(1, 5)
         tamper = rng.choice(chainrun.TAMPERS)
         at = rng.randrange(1, n + 1)       # between step at-1 and step at; at = n: the final product
-        opts = chainrun.gen_opts(rng)
+        opts = chainrun.gen_opts(rng, allow_paths=set(chainrun.TAMPERS) <= {None, "rewrite", "excluded"})
         h = chainrun.Honest(rng, root).carry_out(n, tamper, at, opts)
         desc = {"steps": n, "tamper": tamper if h.tamper_applied else None, "at": at,
-                "options": {"exclude": opts["exclude"][0] if opts["exclude"] else None, "lstrip": opts["lstrip"], "base_path": opts["base"]},
+                "options": {"exclude": opts["exclude"][0] if opts["exclude"] else None, "lstrip": opts["lstrip"], "base_path": opts["base"],
+                            "paths": opts.get("paths")},
                 "modes": [s["mode"] for s in h.steps], "fmts": ["dsse" if s["dsse"] else "metablock" for s in h.steps],
                 "keys": [s["key"].kind for s in h.steps]}
         if check_c11:
@@ -109,10 +110,11 @@ def model_run(h, st):
     opts = h.opts
     before, after = tree_of(st["before"]), tree_of(st["after"])
     patterns = list(opts["exclude"][0]) if opts["exclude"] else list(ist.ARTIFACT_EXCLUDE_PATTERNS)
-    cands = sorted(set(T.candidate_paths(before, ["."])) | set(T.candidate_paths(after, ["."])))
+    starts = list(opts["paths"] or ["."])
+    cands = sorted(set(T.candidate_paths(before, starts)) | set(T.candidate_paths(after, starts)))
     out, err = expected_streams(st["cmd"])
     req = {"op": "in_toto_run", "before": T.model_node(before, before), "after": T.model_node(after, after), "name": st["name"],
-           "material_list": ["."], "product_list": ["."], "command": list(st["cmd"]),
+           "material_list": list(opts["paths"] or ["."]), "product_list": list(opts["paths"] or ["."]), "command": list(st["cmd"]),
            "run": {"return-value": 0, "stdout": out, "stderr": err} if st["cmd"] else None,
            "record_streams": bool(st["streams"]), "signer": st["key"].keyid, "metadata_directory": h.links,
            "excl": T.exclusion_table(patterns, cands), "follow": True, "normalize": False, "lstrip": list(opts["lstrip"] or [])}
